@@ -28,8 +28,10 @@ sys.setrecursionlimit(20000)
 
 ALWAYS = ("ANCHOR", "FLOOR", "ENGINE", "BUILD", "SHAPE", "SPECIMEN")
 # properties whose generator logic is also decided end-to-end by a generated-program corpus (r_corpus.py)
-CORPUS_BACKED = {"C05": ("C05-R8",), "C15": ("C15-R8",), "C16": ("C16-R6", "C16-R7")}
-MACRO_RULE_IDS = {"C05": ("C05-R1", "C05-R2", "C05-R3", "C05-R4"), "C15": ("C15-R1", "C15-R2", "C15-R3", "C15-R4"), "C16": ("C16-R1", "C16-R3", "C16-R5")}
+CORPUS_BACKED = {"C05": ("C05-R8",), "C15": ("C15-R8",), "C16": ("C16-R6", "C16-R7"), "C18": ("C18-R5",)}
+MACRO_RULE_IDS = {"C05": ("C05-R1", "C05-R2", "C05-R3", "C05-R4", "C05-R6"), "C15": ("C15-R1", "C15-R2", "C15-R3", "C15-R4", "C15-R6"), "C16": ("C16-R1", "C16-R2", "C16-R3", "C16-R4", "C16-R5"), "C18": ("C18-R6",)}
+# which r_macros rule functions are backed by the corpus / witnesses of which property (None = all of r_macros)
+BACKED_ORIGINS = {"C18": ("r_macros.rule_param_parser",)}
 
 
 def blame_specimen(err):
@@ -136,10 +138,13 @@ def run_static(repo, tier, props):
         R = core.Report(pid)
         R.config = "static"
         for fn in spec.get("static_rules", []):
+            n_before = len(R.violations)
             try:
                 fn(repo, tier, R)
             except Exception:
                 R.violations.append(core.Violation("ENGINE", fn.__name__, "rule crashed (fail closed):\n" + traceback.format_exc()[-1500:], None, "static"))
+            for v in R.violations[n_before:]:
+                v.origin = fn.__module__.split(".")[-1] + "." + fn.__name__
         for rule, floor in spec.get("static_floors", {}).items():
             R.floor(rule, floor)
         out[pid] = pack(R, spec, 0)
@@ -360,8 +365,8 @@ def evaluate(pid, res, tier, seed, a, t0, quiet=False):
                             n_ = "info: rule %s judges %d instances in %s and %d in %s (debug-only checks add sites; not a violation)" % (r_, ca.get(r_, 0), a_["config"], cb.get(r_, 0), b_["config"])
                             if n_ not in notes:
                                 notes.append(n_)
-    # Corpus-backed properties: the structural rules on the proc-macro crate's own functions (r_macros) recognise
-    # particular code shapes. When such a rule does not hold but the generated-program corpus of the same property
+    # Corpus-backed properties: the structural rules on the proc-macro crate's own functions (r_macros) and the token-shape
+    # rules on its templates (r_tmpl.rule_template_shapes / rule_sibling_helpers) recognise particular code shapes. When such a rule does not hold but the generated-program corpus of the same property
     # (decided by rustc on programs built with the current macros) ran in full and found no behavioural difference,
     # the structural finding is recorded as a note, not as a violation: a behaviour-preserving refactoring of the
     # generator must not raise an alarm, and a behaviour-changing one is what the corpus exists to decide.
@@ -375,7 +380,8 @@ def evaluate(pid, res, tier, seed, a, t0, quiet=False):
             demoted = {}
             for v in viols:
                 o = v.get("origin") or ""
-                structural = o.startswith("r_macros.") and o not in ("r_macros.rule_param_parser",)
+                structural = (o in BACKED_ORIGINS[pid]) if pid in BACKED_ORIGINS else (
+                    (o.startswith("r_macros.") and o not in ("r_macros.rule_param_parser",)) or o in ("r_tmpl.rule_template_shapes", "r_tmpl.rule_sibling_helpers"))
                 if v["rule"] == "FLOOR" and v["key"] in MACRO_RULE_IDS.get(pid, ()):
                     structural = True
                 if structural:
